@@ -276,7 +276,7 @@ class SimConnection(sqlite3.Connection):
 
     def commit(self):
         if self._evpath:
-            ans = event("sqlite-commit", self._evpath)
+            ans = event("sqlite-commit", self._evpath, dirty=bool(self.in_transaction))
             r = super().commit()
             after_event(ans)
             return r
@@ -289,7 +289,7 @@ def sim_sqlite_connect(database, *a, **kw):
     if sp is None and tp is None:
         return _real_sqlite_connect(database, *a, **kw)
     kw.setdefault("factory", SimConnection)
-    ans = event("sqlite-connect", sp or tp)
+    ans = event("sqlite-connect", sp or tp, new=not _real_exists(database))
     conn = _real_sqlite_connect(database, *a, **kw)
     try:
         conn._evpath = sp or tp
